@@ -215,19 +215,19 @@ theorem styleOf_setNodes (v : Nat) (p : Path) :
 
 theorem styleOf_empty (p : Path) : ({} : Styles).styleOf p = 0 := rfl
 
-theorem applyStep_irrel (o : Opts) (a b : Styles) (s : Step) : applyStep o a s = applyStep o b s := by
+theorem applyStep_irrel (a b : Styles) (s : Step) : applyStep a s = applyStep b s := by
   cases s <;> rfl
 
-theorem foldl_applyStep (o : Opts) :
-    ∀ (h : List Step) (a : Styles), h.foldl (applyStep o) a =
+theorem foldl_applyStep :
+    ∀ (h : List Step) (a : Styles), h.foldl applyStep a =
       match h.getLast? with
       | none => a
-      | some s => applyStep o {} s
+      | some s => applyStep {} s
   | [], a => rfl
   | x :: xs, a => by
-    rw [List.foldl_cons, foldl_applyStep o xs]
+    rw [List.foldl_cons, foldl_applyStep xs]
     cases xs with
-    | nil => simp [applyStep_irrel o a {} x]
+    | nil => simp [applyStep_irrel a {} x]
     | cons y ys =>
       have : (y :: ys).getLast? = some ((y :: ys).getLast (by simp)) := List.getLast?_eq_some_getLast (by simp)
       rw [List.getLast?_cons_cons, this]
@@ -351,55 +351,9 @@ theorem pathsL_filter (S : List Path) (pre : Path) :
       | none => simp [filterList, hs, ih]
 end
 
-theorem roiTrans_keeps (o : Opts) (st : Styles) (act : List Path) :
-    ∀ ts ts', roiTrans o st act ts = some ts' → ∀ t ∈ ts, act.contains t.source = true → t ∈ ts'
-  | [], ts', h, t, ht, _ => by simp at ht
-  | x :: r, ts', h, t, ht, ha => by
-    simp only [roiTrans] at h
-    have rest : ∀ r', roiTrans o st act r = some r' → t ∈ r → t ∈ r' :=
-      fun r' hr htr => roiTrans_keeps o st act r r' hr t htr ha
-    simp only [List.mem_cons] at ht
-    by_cases hx : act.contains x.source = true
-    · simp only [hx, if_true, Option.map_eq_some_iff] at h
-      obtain ⟨r', hr, rfl⟩ := h
-      rcases ht with ht | ht
-      · simp [ht]
-      · simp [rest r' hr ht]
-    · have htx : t ≠ x := fun e => hx (e ▸ ha)
-      have htr : t ∈ r := by rcases ht with ht | ht; exact absurd ht htx; exact ht
-      simp only [hx] at h
-      cases hd : x.dest with
-      | none =>
-        simp only [hd] at h
-        by_cases hf : o.fixRoi = true
-        · simp only [hf, if_true] at h; exact rest ts' h htr
-        · simp [hf] at h
-      | some d =>
-        simp only [hd] at h
-        by_cases hs : st.edgeStyled x.source (some d) = true
-        · cases hr : roiTrans o st act r with
-          | none => simp [hs, hr] at h
-          | some r' =>
-            simp [hs, hr] at h
-            subst h
-            simp [rest r' hr htr]
-        · simp only [hs] at h
-          exact rest ts' h htr
-
-theorem roiTrans_fixed (o : Opts) (st : Styles) (act : List Path) (hf : o.fixRoi = true) :
-    ∀ ts, (roiTrans o st act ts).isSome = true
-  | [] => rfl
-  | x :: r => by
-    have ih := roiTrans_fixed o st act hf r
-    obtain ⟨r', hr⟩ := Option.isSome_iff_exists.mp ih
-    unfold roiTrans
-    rw [hr]
-    by_cases hx : act.contains x.source = true
-    · rw [if_pos hx]; rfl
-    · rw [if_neg hx]
-      cases x.dest with
-      | none => simp [hf]
-      | some d => by_cases hs : st.edgeStyled x.source (some d) = true <;> simp [hs]
+theorem roiTrans_mem (st : Styles) (act : List Path) (ts : List MTrans) (t : MTrans) :
+    t ∈ roiTrans st act ts ↔ t ∈ ts ∧ (t.source ∈ act ∨ st.edgeStyled t.source t.dest = true) := by
+  simp [roiTrans, List.mem_filter]
 
 /-! ### the history only matters through its last step -/
 
@@ -409,22 +363,16 @@ def curOf (init : List Path) (h : List Step) : List Path :=
   | some (.change _ _ _ c) => c
   | some (.regen c) => c
 
-/-- the name under which the backend recorded the source of the last executed transition -/
-def recordedSource (o : Opts) (h : List Step) : Option Path :=
-  match h.getLast? with
-  | some (.change pre src _ _) => some (prevKey o pre src)
-  | _ => none
-
 /-- the (global) name of the source of the last executed transition; none after a regeneration -/
 def lastSource (h : List Step) : Option Path :=
   match h.getLast? with
   | some (.change pre src _ _) => some (pre ++ src)
   | _ => none
 
-theorem styleOf_after (o : Opts) (init : List Path) (h : List Step) (p : Path) :
-    (stylesAfter o init h).styleOf p =
-      if p ∈ curOf init h then 1 else if recordedSource o h = some p then 2 else 0 := by
-  unfold stylesAfter curOf recordedSource
+theorem styleOf_after (init : List Path) (h : List Step) (p : Path) :
+    (stylesAfter init h).styleOf p =
+      if p ∈ curOf init h then 1 else if lastSource h = some p then 2 else 0 := by
+  unfold stylesAfter curOf lastSource
   rw [foldl_applyStep]
   cases hl : h.getLast? with
   | none => simp [styleOf_setNodes, styleOf_empty]
@@ -432,10 +380,10 @@ theorem styleOf_after (o : Opts) (init : List Path) (h : List Step) (p : Path) :
     cases s with
     | regen c => simp [applyStep, styleOf_setNodes, styleOf_empty]
     | change pre src dst c =>
-      simp only [applyStep, styleOf_setNodes, setPrevious, styleOf_setNode]
+      simp only [applyStep, styleOf_setNodes, setPrevious, styleOf_setNode, prevKey]
       by_cases h1 : p ∈ c
       · simp [h1]
-      · by_cases h2 : prevKey o pre src = p
+      · by_cases h2 : pre ++ src = p
         · simp [h1, h2]
         · simp [h1, h2, Styles.styleOf, alook]
 
